@@ -1,0 +1,75 @@
+//go:build verif
+
+// Contracts for package ipa, read by /verif's govc. Comments only; compiled only under tag "verif".
+
+package ipa
+
+// ---- barycentric.go (C18)
+
+//@ func computeBarycentricWeightForElement
+//@ props C18
+//@ prelude field bary
+//@ requires element < 256
+//@ ensures result == Aprime(element)
+//@ loop 0 invariant 0 <= i && i <= 256 && total == Aprime_part(element, i) && domain_element_fr == fr_of_int(element)
+
+//@ func NewPrecomputedWeights
+//@ props C18
+//@ prelude field bary
+//@ ensures fresh(result) && validPW(result)
+//@ loop 0 invariant 0 <= i && i <= 256 && len(barycentricWeights) == 512 && fresh(barycentricWeights)
+//@ loop 0 invariant forall k int :: 0 <= k && k < i ==> barycentricWeights[k] == Aprime(k)
+//@ loop 0 invariant forall k int :: 256 <= k && k < 256 + i ==> barycentricWeights[k] == fr_inv(Aprime(k-256))
+//@ loop 1 invariant 1 <= i && i <= 256 && len(barycentricWeights) == 512 && len(invertedDomain) == 510 && fresh(invertedDomain) && obj(invertedDomain) != obj(barycentricWeights)
+//@ loop 1 invariant forall k int :: 0 <= k && k < 256 ==> barycentricWeights[k] == Aprime(k)
+//@ loop 1 invariant forall k int :: 256 <= k && k < 512 ==> barycentricWeights[k] == fr_inv(Aprime(k-256))
+//@ loop 1 invariant forall j int :: 0 <= j && j < i - 1 ==> invertedDomain[j] == fr_inv(fr_of_int(j+1))
+//@ loop 1 invariant forall j int :: 255 <= j && j < 254 + i ==> invertedDomain[j] == fr_sub(fr_zero, fr_inv(fr_of_int(j-254)))
+
+//@ func PrecomputedWeights.getInvertedElement
+//@ props C18
+//@ prelude field bary
+//@ requires validPW(preComp) && 1 <= element && element <= 255
+//@ ensures result == (is_neg ? fr_sub(fr_zero, fr_inv(fr_of_int(element))) : fr_inv(fr_of_int(element)))
+
+//@ func PrecomputedWeights.getRatioOfWeights
+//@ props C18
+//@ prelude field bary
+//@ requires validPW(preComp) && 0 <= numerator && numerator < 256 && 0 <= denominator && denominator < 256
+//@ ensures result == Aprime(numerator) * fr_inv(Aprime(denominator))
+
+//@ func PrecomputedWeights.getInverseBarycentricWeight
+//@ props C18
+//@ prelude field bary
+//@ requires validPW(preComp) && 0 <= i && i < 256
+//@ ensures result == fr_inv(Aprime(i))
+
+//@ func absInt
+//@ props C18
+//@ requires x > 0 - 9223372036854775808
+//@ ensures (x < 0 ==> result0 == 0 - x && result1) && (x >= 0 ==> result0 == x && !result1)
+
+//@ func PrecomputedWeights.DivideOnDomain
+//@ props C18
+//@ prelude field bary
+//@ requires validPW(preComp) && len(f) >= 256
+//@ ensures fresh(result) && len(result) == 256
+//@ ensures forall k int :: 0 <= k && k < 256 && k != index ==> result[k] == qterm(f, index, k)
+//@ ensures result[index] == dacc(f, index, 256)
+//@ loop 0 invariant 0 <= i && i <= 256 && len(quotient) == 256 && fresh(quotient) && y == f[index]
+//@ loop 0 invariant forall k int :: 0 <= k && k < i && k != index ==> quotient[k] == qterm(f, index, k)
+//@ loop 0 invariant quotient[index] == dacc(f, index, i)
+
+//@ func PrecomputedWeights.ComputeBarycentricCoefficients
+//@ props C18 C04
+//@ prelude field bary
+//@ requires validPW(preComp)
+//@ ensures fresh(result) && len(result) == 256
+//@ ensures forall k int :: 0 <= k && k < 256 ==> result[k] == fr_inv((point - fr_of_int(k)) * Aprime(k)) * Az(point)
+//@ loop 0 invariant 0 <= i && i <= 256 && len(lagrangeEvals) == 256 && fresh(lagrangeEvals)
+//@ loop 0 invariant forall k int :: 0 <= k && k < i ==> lagrangeEvals[k] == (point - fr_of_int(k)) * Aprime(k)
+//@ loop 1 invariant 0 <= i && i <= 256 && len(lagrangeEvals) == 256
+//@ loop 1 invariant totalProd == Az_part(point, i)
+//@ loop 1 invariant forall k int :: 0 <= k && k < 256 ==> lagrangeEvals[k] == (point - fr_of_int(k)) * Aprime(k)
+//@ loop 2 invariant 0 <= i && i <= 256 && totalProd == Az(point) && len(lagrangeEvals) == 256 && fresh(lagrangeEvals)
+//@ loop 2 invariant forall k int :: 0 <= k && k < 256 ==> lagrangeEvals[k] == (k < i ? fr_inv((point - fr_of_int(k)) * Aprime(k)) * Az(point) : fr_inv((point - fr_of_int(k)) * Aprime(k)))
